@@ -26,9 +26,10 @@ LEVEL_RULE = (
 ASSUMPTIONS = [
     "closed-shell relation tested with exactly equal channels; polarised relations with (0.55 D1, 0.45 D2), D1/D2 positive definite",
     "relation (c) only for models that are separable by construction: SEP spin mode, exchange-type baselines, no correlation in the semilocal mix",
-    "tolerance 5e-10 relative (measured <= 7e-11 on the unchanged tree over the thorough lattice): only summation order may differ between the two spin paths",
+    "tolerance 1e-8 relative (measured <= 1.3e-9 on the unchanged tree over seeds 0-3, 7 and the thorough lattice): only summation order may differ between the two spin paths",
 ]
-TOL = 5e-10  # thorough tier measured up to 7e-11 (He, SDMX/SADM families): pure summation-order noise
+TOL = 1e-8  # measured over seeds 0-3, 7 and the thorough lattice: <= 1.3e-9 (1e-16 regularisers of s^2 / alpha are not
+# spin-scaling invariant and show in the diffuse tail of the base molecule); <= 7e-11 elsewhere (summation order)
 
 from checks import c01 as _c01  # noqa: E402  (shares the lattice dimensions and the builder)
 
@@ -112,7 +113,7 @@ def run_e2e(case):
         # libxc-backed baselines: libxc applies its density threshold per spin channel, so the polarised and the
         # unpolarised evaluation treat the points between the two thresholds differently; measured <= 1.3e-9 relative
         # on the molecule with the diffuse shell (thorough lattice), 3e-11 elsewhere
-        TOL = max(TOL, 5e-9)
+        TOL = max(TOL, 2e-8)
     c1 = dict(case, nspin=1, dm="D1")
     c2 = dict(case, nspin=2, dm="D1")
     mol, ks1, d1 = _c01.build(c1)
@@ -286,7 +287,7 @@ def run_nldfgen(case):
     big = r1[0] > 1e-6
     for s, f in ((0, f_a), (1, f_b)):
         r = _rel(f_r[:, big], f[:, big])
-        if not r <= 1e-11:
+        if not r <= 1e-10:
             i = int(np.argmax(np.abs(f_r - f)[:, big].max(1)))
             fails.append({"key": "nldfgen;closed-shell;" + ck,
                           "msg": "NLDF features of a half-density channel %d (nspin=2) differ from the unpolarised features: rel %.3e, worst feature %d" % (s, r, i)})
@@ -297,7 +298,7 @@ def run_nldfgen(case):
     v_r = g1.get_potential(vf.copy(), spin=0)
     v_a = g2.get_potential(0.5 * vf, spin=0)
     r = _rel(v_r[:, big], v_a[:, big])
-    if not r <= 1e-11:
+    if not r <= 1e-10:
         fails.append({"key": "nldfgen;closed-shell-potential;" + ck,
                       "msg": "NLDF potential of a half-density channel differs from the unpolarised potential: rel %.3e" % r})
     # separable: channel features of (a, .) equal the unpolarised features of 2a
@@ -305,7 +306,7 @@ def run_nldfgen(case):
     f_ab = g2.get_features(0.5 * r2, spin=1)
     big2 = r2[0] > 1e-6
     r = _rel(f_2a[:, big2], f_ab[:, big2])
-    if not r <= 1e-11:
+    if not r <= 1e-10:
         fails.append({"key": "nldfgen;separable;" + ck, "msg": "channel NLDF features of a differ from unpolarised features of 2a: rel %.3e" % r})
     return {"fail": fails, "evals": 7, "edges": 3, "outcome": [float("%.9e" % np.abs(f_r[:, big]).sum())]}
 
